@@ -298,7 +298,6 @@ def run_case(ctx, idx):
                                        basins=(op == "basin"))
                 else:
                     with dclab.new_dataset(cur) as ds:
-                        f0 = str(rng.choice([f for f in ds.features_innate]))
                         ch = dclab.new_dataset(ds)
                         query_all(ctx, ch, "child", hist)
                         gch = None
